@@ -107,6 +107,12 @@ impl Node {
 }
 pub struct Incr { pub node: Node }
 
+//@defaults InternalObserver
+//@ cellalias: num = self.observing.node.num_on_update_handlers
+//@ rule R5: `let observing = self.observing_erased();` => `` x*
+//@ rule R5 re: `let node = &self\.observing\.node;` => `let node = &self.observing.node;` x*
+//@end
+
 //@extract struct InternalObserver
 //@ file: src/internal_observer.rs
 //@ name: InternalObserver
@@ -243,7 +249,6 @@ impl InternalObserver {
 //@ as: fn subscribe(&mut self, handler: OnUpdateHandler) -> (r: Result<SubscriptionToken, ObserverError>)
 //@ cells: state, on_update_handlers, next_subscriber
 //@ cellalias: num = self.observing.node.num_on_update_handlers
-//@ rule R5: `let observing = self.observing_erased();` => `` x1
 //@ props: C10 C09 C11
 //@ contract:
 //@|     requires old(self).next_subscriber.1 < i32::MAX, old(self).node_count() < i32::MAX,
@@ -264,7 +269,6 @@ impl InternalObserver {
 //@ as: fn unsubscribe(&mut self, token: SubscriptionToken) -> (r: Result<(), ObserverError>)
 //@ cells: state, on_update_handlers
 //@ cellalias: num = self.observing.node.num_on_update_handlers
-//@ rule R5: `let observing = self.observing_erased();` => `` x1
 //@ props: C10 C09 C11
 //@ contract:
 //@|     requires old(self).node_count() > i32::MIN,
@@ -329,6 +333,32 @@ impl OnUpdateHandler {
 
 // (InternalObserver::run_all is not under contract: HashMap::iter_mut / for-loops over it are outside the
 //  verifier's reach; its shape is pinned by the frame obligation C09/frame/run_all-guards-each-handler.)
+
+// ---- the node's observer registry (src/node.rs add_observer / remove_observer): R5 on `observers` ----
+pub struct ObservedNode { pub observers: HashMap<ObserverId, WeakObserver> }
+impl ObservedNode {
+//@extract fn Node::add_observer
+//@ file: src/node.rs
+//@ impl: impl<R: Value> Incremental<R> for Node
+//@ name: add_observer
+//@ as: fn add_observer(&mut self, id: ObserverId, weak: WeakObserver)
+//@ cells: observers
+//@ props: C05 C10
+//@ contract:
+//@|     ensures final(self).observers@ == old(self).observers@.insert(id, weak), // [the-observer-is-registered-under-its-id-others-kept]
+//@end
+
+//@extract fn Node::remove_observer
+//@ file: src/node.rs
+//@ impl: impl<R: Value> Incremental<R> for Node
+//@ name: remove_observer
+//@ as: fn remove_observer(&mut self, id: ObserverId)
+//@ cells: observers
+//@ props: C05 C10
+//@ contract:
+//@|     ensures final(self).observers@ == old(self).observers@.remove(id), // [exactly-that-observer-is-deregistered-in-every-build]
+//@end
+}
 
 // ---- State::unsubscribe (src/state.rs): routing a token to its observer never panics ----
 impl InternalObserver {
